@@ -32,7 +32,8 @@ PROBES = ['unknown-object', 'unknown-method', 'invalid-args', 'interface-omitted
           'no-reply-dispatched', 'deferred-fired-out-of-order', 'deferred-fired-after-loss',
           'same-member-two-interfaces', 'dbusCaller-requested', 'inherited-interface-called', 'interface-bound-across-classes',
           'unencodable-return', 'invalid-error-name', 'peer-ping', 'several-calls-in-flight',
-          'nested-exception-class', 'deferred-already-fired', 'export-over-exported-path', 'base-class-instance-first', 'call-after-unexport']
+          'nested-exception-class', 'deferred-already-fired', 'export-over-exported-path', 'base-class-instance-first', 'call-after-unexport',
+          'two-callers-same-serial']
 COMPONENTS = {
     'real': ['txdbus.objects.DBusObjectHandler.handleMethodCallMessage / DBusObject.executeMethod',
              'txdbus.client.DBusClientConnection', 'txdbus.message / marshal', 'twisted Deferred'],
@@ -198,7 +199,15 @@ def scenario(ctx):
     calls = []      # dict(msg, expect..., replies)
     unexported = [False]
     do_unexport = ds.flag(0.4)
-    replies = {}    # reply_serial -> [Msg]
+    replies = {}    # (reply_serial, destination) -> [Msg]
+    # every caller numbers its own calls: with a common starting point the callers' serials collide
+    base = 1 + ds.choose(2 ** 31)
+    collide = ds.flag(0.5)
+    sser = {s: base + (0 if collide else 100000 * k) for k, s in enumerate([':1.50', ':1.51', ':1.7'])}
+
+    def caller_serial(sender):
+        sser[sender] += 1
+        return sser[sender]
     nseen = [len(rig.sent)]
     budget = [1 + ds.choose(12 * (3 if ctx.tier == 'thorough' else 1))]
 
@@ -226,7 +235,7 @@ def scenario(ctx):
              'kindname': 'unknown-object', 'iface': o['iface'], 'member': o['member'],
              'sig': o['sig'], 'body': gen.body(ds, o['sig']), 'expect': 'unknown-object'}
         m = daemon.call(c['path'], c['member'], c['iface'], c['sig'], c['body'], sender=c['sender'],
-                        dest=rig.bus_name, flags=0, little=True)
+                        dest=rig.bus_name, flags=0, little=True, serial=caller_serial(c['sender']))
         c.update(serial=m.serial, msg=m, end=rig.conn.pipes[1].total, delivered=False)
         calls.append(c)
         sim.probe('call-after-unexport')
@@ -280,7 +289,9 @@ def scenario(ctx):
             ref = gen.body(ds, sig)
             c.update(kindname=expect, iface=iface, member=member, sig=sig, body=ref, expect=expect)
         m = daemon.call(c['path'], c['member'], c['iface'], c['sig'], c['body'], sender=sender,
-                        dest=rig.bus_name, flags=flags, little=little)
+                        dest=rig.bus_name, flags=flags, little=little, serial=caller_serial(sender))
+        if any(o['serial'] == m.serial and o['sender'] != sender for o in calls):
+            sim.probe('two-callers-same-serial')
         c['serial'] = m.serial
         c['msg'] = m
         c['end'] = rig.conn.pipes[1].total
@@ -360,20 +371,21 @@ def scenario(ctx):
         for m in new:
             if m.mtype in (rc.METHOD_RETURN, rc.ERROR):
                 rs = m.fields.get(rc.F_REPLY_SERIAL)
-                replies.setdefault(rs, []).append(m)
-                c = next((c for c in calls if c['serial'] == rs), None)
-                if c is None:
+                dst = m.fields.get(rc.F_DESTINATION)
+                same = [c for c in calls if c['serial'] == rs]
+                if not same:
                     raise Violation('C10/reply-serial', 'unknown serial',
                                     'reply carries reply_serial %r which no call used' % rs)
-                if len(replies[rs]) > 1:
-                    raise Violation('C10/second-reply', c['kindname'],
-                                    'call serial %d (%s) got a second reply: %r'
-                                    % (rs, c['kindname'], [r.describe() for r in replies[rs]]))
-                if m.fields.get(rc.F_DESTINATION) != c['sender']:
+                c = next((c for c in same if c['sender'] == dst), None)
+                if c is None:
                     raise Violation('C10/reply-destination', 'destination',
-                                    'reply to %s addressed to %r' % (c['sender'],
-                                                                    m.fields.get(rc.F_DESTINATION)))
-        inflight = sum(1 for c in calls if c['delivered'] and c['serial'] not in replies)
+                                    'reply to %s addressed to %r' % (same[0]['sender'], dst))
+                replies.setdefault((rs, dst), []).append(m)
+                if len(replies[(rs, dst)]) > 1:
+                    raise Violation('C10/second-reply', c['kindname'],
+                                    'call serial %d of %s (%s) got a second reply: %r'
+                                    % (rs, dst, c['kindname'], [r.describe() for r in replies[(rs, dst)]]))
+        inflight = sum(1 for c in calls if c['delivered'] and (c['serial'], c['sender']) not in replies)
         if inflight > 1:
             sim.probe('several-calls-in-flight')
 
@@ -388,7 +400,7 @@ def scenario(ctx):
     inv_iter = iter(invocations)
     delivered = sorted([c for c in calls if c['delivered']], key=lambda c: c['order'])
     for c in delivered:
-        rs = replies.get(c['serial'], [])
+        rs = replies.get((c['serial'], c['sender']), [])
         noreply = bool(c['flags'] & 1)
         exp = c['expect']
         if exp != 'invoke':
